@@ -252,6 +252,9 @@ def effect_signature(prog, body):
 
 
 def check(env, rep, tier):
+    include(rep, env, tier, "c06", ("C06.2", "C06.9"), "C19.13",
+            "'typed getters report undecodable raw values as undecodable': the width check of the typed unsigned decoder behind get_observe_value / "
+            "get_content_format looks at the stored length (an over-long, zero-padded raw value is an error, not a named value)")
     include(rep, env, tier, "c06", ("C06.7",), "C19.11",
             "'the observe accessor reads the same state as the raw option API': get_observe_value / set_observe_value hand the number "
             "over unchanged (no mask, no shift)")
@@ -332,6 +335,7 @@ def check(env, rep, tier):
         rep.floor("C19.6", "option-flattening iterators", n_ad, 2)
         check_generic_view(prog, rep)
         check_raw_add(prog, rep)
+        check_map_writers(prog, rep)
         # ---- C19.7 sorted-options marker justified by the container
         a = prog.adts.get("packet::Packet")
         has_marker = any(im.get("trait", "").endswith("WithSortedOptions") and prog.types[im["self_ty"]]["s"] == "packet::Packet" for im in prog.impls)
@@ -623,6 +627,37 @@ def check_raw_add(prog, rep):
            "Packet::add_option can replace the list stored under its number without a lookup under that number having found it absent "
            "(insert at %s): values added earlier are dropped when the option is not the last key" % sorted(set("%s:%s" % (x.get("file"), x.get("line")) for x in bad))[:2],
            {"file": b["span"]["f"], "line": b["span"]["l"], "fn": b["path"]}, sample={"rule": "C19.12", "inserts": n_ins[0], "paths": len(res)})
+
+
+def check_map_writers(prog, rep):
+    """C19.14: the option map is restructured (entries inserted, replaced, removed) only by the raw API in packet.rs - the
+    coap-message views and every other module go through it, so that what they add is appended the way add_option appends"""
+    RESTRUCT = ("insert", "entry", "remove", "remove_entry", "clear", "retain", "append", "extend", "pop_first", "pop_last", "split_off", "first_entry", "last_entry")
+    inside, outside = 0, []
+    for b in prog.bodies.values():
+        if b.get("promoted") or "::tests::" in b["id"] or "::test::" in b["id"]:
+            continue
+        for bb in b["blocks"]:
+            t = bb["term"]
+            if t["k"] != "call" or bb.get("cleanup"):
+                continue
+            pth = (t.get("resolved") or t.get("callee") or {}).get("path", "") or ""
+            nm_ = pth.rsplit("::", 1)[-1]
+            if nm_ not in RESTRUCT or "btree::map::BTreeMap" not in pth and "BTreeMap<" not in pth:
+                continue
+            a0t = ""
+            if t["args"] and t["args"][0]["k"] in ("copy", "move") and not t["args"][0]["place"]["p"]:
+                a0t = prog.types[b["locals"][t["args"][0]["place"]["l"]]["ty"]]["s"]
+            if "BTreeMap<u16, alloc::collections::linked_list::LinkedList<alloc::vec::Vec<u8>>>" not in a0t.replace("alloc::collections::LinkedList", "alloc::collections::linked_list::LinkedList"):
+                continue
+            if b["path"].startswith("packet::"):
+                inside += 1
+            else:
+                outside.append("%s in %s" % (nm_, b["path"]))
+    rep.ob("C19.14", "option-map-restructured-only-by-the-raw-api", not outside,
+           "the option map is written directly outside packet.rs (%s): a view that stores lists itself does not append the way the raw "
+           "add_option does (values already stored under that number are lost)" % "; ".join(sorted(set(outside))[:3]))
+    rep.floor("C19.14", "option-map writes inside the raw API (positive instances of the pattern)", inside, 3)
 
 
 def check_generic_view(prog, rep):
